@@ -84,8 +84,13 @@ class HarnessError(Exception):
 _ABORT = None  # multiprocessing.Value shared with the workers: stop early once plenty of violations are known
 
 
+_WORKER_LOG = []  # chunks this (long-lived) pool worker has executed so far, in order
+
+
 def _run_task(task):
     jname, func, params, lo, hi = task
+    prior = list(_WORKER_LOG)
+    _WORKER_LOG.append([jname, lo, hi])
     if _ABORT is not None and _ABORT.value:
         r = new_result()
         r["capped"] = True
@@ -97,6 +102,7 @@ def _run_task(task):
         r = func(params, lo, hi)
         for v in r["violations"]:
             v["_chunk"] = [jname, lo, hi]  # replay handle for failures that depend on the calls made before them
+            v["_prior_chunks"] = prior  # ... including the chunks the same worker process ran earlier
         if guard.HANGS[0]:
             r["counters"]["hangs"] = max(r["counters"].get("hangs", 0), guard.HANGS[0])
             if guard.HANGS[0] >= 2:
@@ -413,13 +419,53 @@ def run_check(pid: str, tier: str, seed: int, procs: int, only: str | None = Non
     return 0
 
 
+def _replay_chunks(byname, chunks, want):
+    setup_paths()
+    for name, lo, hi in chunks:
+        j = byname.get(name)
+        if j is None:
+            continue
+        r = j.func(j.params, lo, hi)
+        for x in r["violations"]:
+            if vkey(x) == want:
+                return x
+    return None
+
+
+def _replay_single(mod, v):
+    setup_paths()
+    return mod.replay(v)
+
+
+def _in_fresh_process(fn, *args, timeout=3600):
+    ctx = mp.get_context("fork")
+    a, b = ctx.Pipe(duplex=False)
+
+    def child():
+        try:
+            b.send(("ok", fn(*args)))
+        except BaseException:  # noqa: BLE001
+            b.send(("error", traceback.format_exc()))
+
+    p = ctx.Process(target=child)
+    p.start()
+    out = a.recv() if a.poll(timeout) else ("error", "replay attempt timed out")
+    p.join(5)
+    if p.is_alive():
+        p.terminate()
+    if out[0] == "error":
+        raise HarnessError("replay failed: " + out[1])
+    return out[1]
+
+
 def run_replay(pid: str, path: str) -> int:
     setup_paths()
     mod = importlib.import_module("checks." + pid.lower())
     with open(path) as f:
         v = json.load(f)
-    a = mod.replay(v)
-    b = mod.replay(v)
+    # every attempt runs in its own fresh process: nothing an earlier attempt computed (caches, module state) may decide a later one
+    a = _in_fresh_process(_replay_single, mod, v)
+    b = _in_fresh_process(_replay_single, mod, v)
     if json.dumps(a, sort_keys=True, default=repr) != json.dumps(b, sort_keys=True, default=repr):
         print(f"HARNESS-ERROR property={pid} replay not deterministic")
         return 2
@@ -432,14 +478,16 @@ def run_replay(pid: str, path: str) -> int:
                 if vkey(x) == vkey(v):
                     a = dict(x, detail="(only after the preceding calls of the reverse pass) " + str(x.get("detail")))
                     break
-        for j in mod.jobs(v.get("_tier", "quick"), int(v.get("_seed", 0))) if jname != "__history__" else []:
-            if j.name == jname:
-                r = j.func(j.params, lo, hi)
-                want = vkey(v)
-                for x in r["violations"]:
-                    if vkey(x) == want:
-                        a = dict(x, detail="(only after the preceding calls of its chunk) " + str(x.get("detail")))
-                        break
+        byname = {j.name: j for j in mod.jobs(v.get("_tier", "quick"), int(v.get("_seed", 0)))} if jname != "__history__" else {}
+        want = vkey(v)
+        # first the chunk alone, then preceded by everything the worker process had run before it (in a fresh process
+        # each time, so that nothing leaks from one attempt into the next)
+        for prefix, note in (([], "its chunk"), (v.get("_prior_chunks") or [], "the chunks its worker process had run")):
+            if a or jname not in byname or (note != "its chunk" and not prefix):
+                continue
+            got = _in_fresh_process(_replay_chunks, byname, prefix + [[jname, lo, hi]], want)
+            if got:
+                a = dict(got, detail=f"(only after the preceding calls of {note}) " + str(got.get("detail")))
     if a:
         print(f"  {a.get('function')} {a.get('kind')}: {a.get('detail')}")
         print(f"VIOLATION property={pid} replay={path}")
@@ -459,7 +507,11 @@ def main(argv=None) -> int:
     seed = int(os.environ.get("VERIF_SEED", "0") or 0)
     pid = a.pid.upper()
     if a.replay:
-        return run_replay(pid, a.replay)
+        try:
+            return run_replay(pid, a.replay)
+        except HarnessError as e:
+            print(f"HARNESS-ERROR property={pid} {e}")
+            return 2
     return run_check(pid, a.tier, seed, a.procs, a.only)
 
 
